@@ -173,3 +173,13 @@ func panicsTo(f func()) (msg string, site string) {
 	f()
 	return "", ""
 }
+
+// initTable gives an unstarted node its routing table (what Start() would create)
+// without running the table loop; fill it with vt.InsertDirect.
+func (b *bareNode) initTable() *portalwire.VTable {
+	vt, err := b.P.VerifInitTable(portalwire.Config{DisableInitCheck: true, PingInterval: 10000 * time.Hour, RefreshInterval: 10000 * time.Hour})
+	if err != nil {
+		panic(err)
+	}
+	return vt
+}
